@@ -15,7 +15,7 @@ fn level(prop: &str) -> &'static str {
 fn rule(prop: &str) -> &'static str {
     match prop {
         "C04" => "Runs = (a) every (integer field, boundary value) cell of each structured base file, (b) dedicated long/deep-sequence and producer-bug scenarios, (c) seeded random plans: base (generated sprite, optionally with one producer bug, or corpus file) + 1..3 storage faults (field/bitflip/byte-set/crash-prefix/torn/lost-sector/misdirected/splice/garbage), loaded through a slice or a short-reading SimReader, on a 2 MiB thread, allocator in machine mode, in each listed build profile. distinct = distinct (fault cell class [chunk.field:value-class or kind:position-class] x outcome class [ok / error-message template]) keys; non-trivial = the disk image differs from a well-formed base (or carries a producer bug) AND still starts with a valid 128-byte header so the parser gets past the file header.",
-        "C05" => "Same fault space as C04 plus pristine well-formed files; only runs whose load returns Ok become client sessions: full observation sweep + 20..80 random ops incl. documented-total lookups at extreme arguments. distinct = distinct (fault cell class x 'loaded') keys plus distinct (op, result digest) pairs; non-trivial = the file loaded AND (image differs from its base OR carries a producer bug OR is a generated multi-feature sprite).",
+        "C05" => "evaluations = loads + accessor calls executed on loaded sprites. Same fault space as C04 plus pristine well-formed files; only runs whose load returns Ok become client sessions: full observation sweep + 20..80 random ops incl. documented-total lookups at extreme arguments. distinct = distinct (fault cell class x 'loaded') keys plus distinct (op, result digest) pairs; non-trivial = the file loaded AND (image differs from its base OR carries a producer bug OR is a generated multi-feature sprite).",
         "C12" => "Runs = every (size/count/length/index field, larger boundary value up to the type maximum) cell of each structured base, one at a time; deflate bombs, declared-huge cels, scale families; seeded random plans (inflated fields, generic storage faults, prefix-only supply). Load goes through SimReader with the counting allocator. distinct = distinct (base, fault list) keys; non-trivial = the run's reader delivered bytes past every faulted field's offset (the inflated field was actually parsed).",
         "C13" => "Every strict prefix [0,c) with c < end-of-last-frame of every base file up to 64 KiB (larger corpus files: first 4 KiB, +-8 around every frame/chunk boundary, every integer field, prime stride), each loaded from a slice; 1/16 of the cuts additionally through SimReader (1-byte reads / drawn schedule + wrapper) and through real truncated temp files (File, read_file). distinct = distinct (file, cut, reader seam) triples; non-trivial = cut >= 128 (past the file header).",
         "C14" => "Seeded random runs: base (generated or corpus, 1/8 malformed) x reader schedule (short-read policy, EINTR placements biased into in-flight state, optional hard error strictly before the consumed length) x wrapper (SimReader bare / BufReader(cap) / Chain / Take / Cursor / File / read_file); thorough also the full (offset x error kind) matrix of small bases. distinct = distinct reader event traces (digest of the (requested, result) sequence); non-trivial = at least one read was short, interrupted or failed.",
